@@ -156,6 +156,8 @@ OVERRIDES = [
         bounded='two loop values / two truthy conditions; which scope each statement uses is independent of the values')),
     (r'^c16_each_save_and_restore', dict(functions=['Scope::store_local_values', 'Scope::restore_local_values', 'Scope::get_local_or_none (complete bodies, extracted; variable table instantiated at a four-slot u8 table)'],
         bounded='three names, one enclosing scope; values symbolic')),
+    (r'^c36_(used|forwarded)_module_', dict(functions=['output::transform::handle_item (module-loading closures of the Item::Use and Item::Forward arms; extracted ranges run against recording stand-ins)'],
+        bounded='one configured variable')),
     (r'^c16_assignment_updates', dict(functions=['Scope::set_variable (flag logic after the module case; extracted range)'], bounded=None)),
     (r'^c17_for_end_unit', dict(functions=['sass::SrcRange::evaluate (unit conversion of the end value, extracted range)'],
                                 bounded='seven concrete (value, unit, unit) triples')),
